@@ -830,6 +830,398 @@ template <class T, size_t N> static void large_static(int ord, const char *tn)
     L.run(ord);
 }
 
+// ---------------------------------------------------------------- C pool fed from several zones
+// pool_engage() may be called again on a head that is in use (a paged pool adds a zone when it runs dry, or
+// earlier): the capacity becomes the sum of the engaged zones, nothing that is on the free list may be lost.
+struct MultiZone
+{
+    struct pool_head h;
+    size_t esz;
+    vector<size_t> zn;    // cells per zone
+    vector<char *> zmem;  // exactly-sized heap blocks (ASan)
+    vector<size_t> zbase; // global index of the zone's first cell
+    vector<char> engaged;
+    vector<int> live_tag; // per global cell: -1 free / not engaged, else tag
+    size_t nlive = 0;
+
+    MultiZone(size_t e, const vector<size_t> &cells) : esz(e), zn(cells)
+    {
+        size_t base = 0;
+        for (size_t n : zn)
+        {
+            char *m = new char[n * esz];
+            memset(m, 0xEE, n * esz);
+            zmem.push_back(m);
+            zbase.push_back(base);
+            base += n;
+        }
+        engaged.assign(zn.size(), 0);
+        live_tag.assign(base, -1);
+        pool_init(&h);
+    }
+    ~MultiZone()
+    {
+        for (char *m : zmem)
+            delete[] m;
+    }
+    MultiZone(const MultiZone &) = delete;
+    size_t total() { return live_tag.size(); }
+    size_t capacity()
+    {
+        size_t c = 0;
+        for (size_t z = 0; z < zn.size(); z++)
+            c += engaged[z] ? zn[z] : 0;
+        return c;
+    }
+    void engage(int z)
+    {
+        pool_engage(&h, zmem[z], zn[z] * esz, esz);
+        engaged[z] = 1;
+    }
+    char *addr(size_t g)
+    {
+        size_t z = 0;
+        while (z + 1 < zn.size() && g >= zbase[z + 1])
+            z++;
+        return zmem[z] + (g - zbase[z]) * esz;
+    }
+    // global cell index of a block; -1: not a cell of an engaged zone (outside / off the grid / zone not engaged)
+    long locate(const char *q, string &why)
+    {
+        for (size_t z = 0; z < zn.size(); z++)
+            if (q >= zmem[z] && q < zmem[z] + zn[z] * esz)
+            {
+                if (!engaged[z])
+                {
+                    why = mc::fmt("in zone %zu which was never engaged", z);
+                    return -1;
+                }
+                if ((q - zmem[z]) % esz)
+                {
+                    why = mc::fmt("zone %zu + %ld: not on the %zu-byte grid", z, (long)(q - zmem[z]), esz);
+                    return -1;
+                }
+                return (long)(zbase[z] + (q - zmem[z]) / esz);
+            }
+        why = "outside every zone";
+        return -1;
+    }
+    // bounded walk: every entry a free cell of an engaged zone, none twice
+    bool walk(vector<int> &order, string &why)
+    {
+        order.clear();
+        vector<char> seen(total(), 0);
+        struct slist_head *hd = &h.free_blocks;
+        for (struct slist_head *it = hd->next; it != hd; it = it->next)
+        {
+            string w;
+            long g = locate((char *)it, w);
+            if (g < 0)
+            {
+                why = mc::fmt("free-list entry #%zu is not a cell of an engaged zone (%s)", order.size(), w.c_str());
+                return false;
+            }
+            if (seen[g] || order.size() >= total())
+            {
+                why = "free list visits a cell twice (cycle)";
+                return false;
+            }
+            seen[g] = 1;
+            order.push_back((int)g);
+        }
+        return true;
+    }
+    // "" or "<kind>: what"
+    string check(bool membership)
+    {
+        vector<int> ord;
+        string why;
+        if (!walk(ord, why))
+            return "free_list_corrupt: " + why;
+        for (int g : ord)
+            if (live_tag[g] >= 0)
+                return mc::fmt("live_cell_on_free_list: live cell %d is on the free list", g);
+        size_t want = capacity() - nlive;
+        if (ord.size() != want || pool_avail(&h) != want)
+            return mc::fmt("count: the free list holds %zu cells, pool_avail()=%zu; engaged capacity %zu - live %zu = %zu", ord.size(), pool_avail(&h), capacity(),
+                           nlive, want);
+        for (size_t g = 0; g < total(); g++)
+        {
+            if (live_tag[g] < 0)
+                continue;
+            for (size_t j = 0; j < esz; j++)
+                if ((unsigned char)addr(g)[j] != pat((unsigned)live_tag[g], (unsigned)j))
+                    return mc::fmt("contents: live cell %zu changed at byte %zu", g, j);
+        }
+        if (membership)
+        {
+            vector<char> onlist(total(), 0);
+            for (int g : ord)
+                onlist[g] = 1;
+            for (size_t g = 0; g < total(); g++)
+                if ((pool_in_freelist(&h, addr(g)) != 0) != (onlist[g] != 0))
+                    return mc::fmt("membership: pool_in_freelist(cell %zu)=%d", g, pool_in_freelist(&h, addr(g)));
+        }
+        return "";
+    }
+    // one allocation against the shadow; "" / "<kind>: what"; `got` = global cell or -1 for null
+    string get(long &got)
+    {
+        bool full = nlive == capacity();
+        char *q = (char *)pool_alloc(&h);
+        got = -1;
+        if (!q)
+            return full ? "" : mc::fmt("null_before_capacity: pool_alloc() returned null with %zu of %zu cells live", nlive, capacity());
+        string w;
+        long g = locate(q, w);
+        if (g < 0)
+            return "outside_zone: pool_alloc() returned a block " + w;
+        if (live_tag[g] >= 0)
+            return mc::fmt("overlap: pool_alloc() returned cell %ld which is live (%zu of %zu live)", g, nlive, capacity());
+        live_tag[g] = (int)g;
+        for (size_t j = 0; j < esz; j++)
+            q[j] = (char)pat((unsigned)g, (unsigned)j);
+        nlive++;
+        got = g;
+        return "";
+    }
+    void put(size_t g)
+    {
+        live_tag[g] = -1;
+        nlive--;
+        pool_free(&h, addr(g));
+    }
+};
+
+static vector<size_t> zone_cells() { return mc::thorough() ? vector<size_t>{3, 1, 3} : vector<size_t>{2, 1, 3}; }
+static const size_t ES_Z[] = {8, 12, 24};
+
+struct ZonesModel : mc::Model
+{
+    static const int MAXTOT = 7, NZ = 3;
+    std::unique_ptr<MultiZone> m;
+    int conf = -1;
+    // op table: init[esz] x3 | pool_alloc | pool_free(cell 0..MAXTOT-1) | pool_engage(zone 0..2)
+    int nops() override { return 3 + 1 + MAXTOT + NZ; }
+    string opname(int o) override
+    {
+        if (o < 3)
+            return mc::fmt("pool_init[elem %zu, no zone yet]", ES_Z[o]);
+        o -= 3;
+        if (o == 0)
+            return "pool_alloc()";
+        o -= 1;
+        if (o < MAXTOT)
+            return mc::fmt("pool_free(cell %d)", o);
+        o -= MAXTOT;
+        return mc::fmt("pool_engage(zone %d: %zu cells) without pool_init", o, zone_cells()[o]);
+    }
+    string state_str()
+    {
+        vector<int> ord;
+        string why;
+        bool ok = m->walk(ord, why);
+        string s = "engaged [";
+        for (size_t z = 0; z < m->zn.size(); z++)
+            if (m->engaged[z])
+                s += mc::fmt("%zu ", z);
+        s += "] free list [" + ints(ord) + (ok ? "] live [" : "...CORRUPT] live [");
+        for (size_t g = 0; g < m->total(); g++)
+            if (m->live_tag[g] >= 0)
+                s += mc::fmt("%zu ", g);
+        return s + "]";
+    }
+    bool finish(const char *cls, int o, string w)
+    {
+        if (w.empty())
+            w = m->check(true);
+        if (!w.empty())
+        {
+            mc::violation(string("C10.c_pool_zones.") + cls + "." + w.substr(0, w.find(':')), "after %s: %s; %s", opname(o).c_str(), w.c_str(), state_str().c_str());
+            return true;
+        }
+        vector<int> ord;
+        string why;
+        m->walk(ord, why);
+        for (size_t i = 1; i < ord.size(); i++)
+            if (ord[i] > ord[i - 1])
+            {
+                mc::nontrivial(); // an order no single engage + allocation-only history leaves behind
+                break;
+            }
+        return true;
+    }
+    bool apply(int o) override
+    {
+        int o0 = o;
+        if (o < 3)
+        {
+            if (conf >= 0)
+                return false;
+            conf = o;
+            mc::crash_context("C10.c_pool_zones.init");
+            m.reset(new MultiZone(ES_Z[o], zone_cells()));
+            return finish("init", o0, "");
+        }
+        if (conf < 0)
+            return false;
+        o -= 3;
+        if (o == 0)
+        {
+            bool full = m->nlive == m->capacity();
+            const char *cls = full ? "get_exhausted" : "get";
+            mc::crash_context("C10.c_pool_zones.%s", cls);
+            long g;
+            string w = m->get(g);
+            if (full)
+                mc::nontrivial(); // capacity + 1st request (also: no zone engaged yet)
+            mc::outcome(g < 0 ? "null" : mc::fmt("cell %ld", g));
+            return finish(cls, o0, w);
+        }
+        o -= 1;
+        if (o < MAXTOT)
+        {
+            if (o >= (int)m->total() || m->live_tag[o] < 0)
+                return false;
+            mc::crash_context("C10.c_pool_zones.put");
+            m->put(o);
+            return finish("put", o0, "");
+        }
+        o -= MAXTOT;
+        if (m->engaged[o])
+            return false; // a zone is engaged once
+        bool had_free = m->capacity() > m->nlive;
+        const char *cls = had_free ? "engage_with_free_blocks" : m->capacity() ? "engage_when_drained" : "engage_first";
+        mc::crash_context("C10.c_pool_zones.%s", cls);
+        if (m->capacity())
+            mc::nontrivial(); // a further zone on a head that is in use
+        m->engage(o);
+        return finish(cls, o0, "");
+    }
+    string key() override
+    {
+        if (conf < 0)
+            return "unconfigured";
+        vector<int> ord;
+        string why;
+        bool ok = m->walk(ord, why);
+        string k = mc::fmt("%d|", conf);
+        for (char e : m->engaged)
+            k += e ? 'E' : '-';
+        k += "|" + ints(ord) + (ok ? "|" : "!|");
+        for (int t : m->live_tag)
+            k += t >= 0 ? 'L' : 'f';
+        return k;
+    }
+};
+
+// large: zones {255,2} and {1,256}; the second zone is engaged up front / when the first is drained / when the first
+// is drained and one block was freed again
+static void zones_large_case()
+{
+    static const size_t ZP[][2] = {{255, 2}, {1, 256}};
+    static const char *TIM[] = {"both zones up front", "second zone when the first is drained", "second zone when the first is drained and one block is free again"};
+    int c = mc::choose(2 * 3 * 3 * 3);
+    int ord = c % 3, tim = c / 3 % 3;
+    size_t esz = ES_L[c / 9 % 3];
+    const size_t *zp = ZP[c / 27];
+    mc::describe("pool_head fed from zones of %zu + %zu cells of %zu bytes, %s, free order %s", zp[0], zp[1], esz, TIM[tim], ORD[ord]);
+    MultiZone m(esz, {zp[0], zp[1]});
+    bool failed = false;
+    auto fail = [&](const char *phase, const string &w) {
+        mc::violation(string("C10.c_pool_zones.large.") + phase + "." + w.substr(0, w.find(':')), "%s (engaged capacity %zu, %zu live)", w.c_str(), m.capacity(), m.nlive);
+        failed = true;
+    };
+    auto observe = [&](const char *phase) {
+        if (failed)
+            return;
+        string w = m.check(true);
+        if (!w.empty())
+            fail(phase, w);
+    };
+    vector<long> order;
+    auto fill = [&](const char *phase) {
+        mc::crash_context("C10.c_pool_zones.large.%s", phase);
+        while (!failed && m.nlive < m.capacity())
+        {
+            long g;
+            string w = m.get(g);
+            if (!w.empty())
+                return fail(phase, w);
+            order.push_back(g);
+            if (boundary(m.nlive, m.capacity()))
+                observe(phase);
+        }
+        if (failed)
+            return;
+        long g;
+        string w = m.get(g); // capacity + 1
+        if (!w.empty())
+            return fail("exhausted", w);
+        observe("exhausted");
+    };
+    mc::crash_context("C10.c_pool_zones.large.engage");
+    observe("init"); // no zone: capacity 0
+    {
+        long g;
+        string w = m.get(g);
+        if (!w.empty())
+            fail("exhausted", w);
+    }
+    m.engage(0);
+    observe("engage");
+    if (tim == 0)
+    {
+        m.engage(1);
+        observe("engage_with_free_blocks");
+    }
+    else
+    {
+        fill("fill_first_zone");
+        if (tim == 2 && !failed)
+        {
+            m.put((size_t)order[0]);
+            order.erase(order.begin());
+            observe("put");
+        }
+        mc::crash_context("C10.c_pool_zones.large.engage");
+        if (!failed)
+        {
+            m.engage(1);
+            observe(tim == 2 ? "engage_with_free_blocks" : "engage_when_drained");
+        }
+    }
+    if (!failed)
+        fill("fill");
+    if (!failed)
+    {
+        string ph = string("free_") + ORD[ord];
+        mc::crash_context("C10.c_pool_zones.large.%s", ph.c_str());
+        vector<long> seq;
+        if (ord == 0)
+            seq.assign(order.rbegin(), order.rend());
+        else if (ord == 1)
+            seq = order;
+        else
+            for (size_t s0 = 0; s0 < 7; s0++)
+                for (size_t i = s0; i < order.size(); i += 7)
+                    seq.push_back(order[i]);
+        for (long g : seq)
+        {
+            if (failed)
+                break;
+            m.put((size_t)g);
+            if (boundary(m.nlive, m.capacity()))
+                observe(ph.c_str());
+        }
+        order.clear();
+    }
+    if (!failed)
+        fill("refill");
+    mc::nontrivial(); // every case engages a further zone on a used head and crosses the 2^8 cell count
+    mc::outcome(mc::fmt("%zu+%zu %s %s", zp[0], zp[1], TIM[tim], failed ? "violation" : "ok"));
+}
+
 MC_INIT
 {
     static const size_t ES[] = {8, 16, 24};
@@ -912,5 +1304,8 @@ MC_INIT
         }
 #undef C10_LS
     });
+    // ---- C pool fed from several zones (pool_engage again without pool_init)
+    mc::add_bfs("c_pool_zones", [] { return std::unique_ptr<mc::Model>(new ZonesModel); });
+    mc::add_check("c_pool_zones_large", zones_large_case);
 }
 MC_MAIN
